@@ -289,7 +289,7 @@ def _cond_holds(cs, env):
     return True
 
 
-def ray_walker(ctx, rule, name, try_name, sq_param, bl_param, deltas_ok):
+def ray_walker(ctx, rule, name, try_name, sq_param, bl_param, deltas_ok, single=None):
     """Decide the slider ray walk of `name` against the geometric relation.
 
     Per direction the walk starts on the piece's square; it continues from a ray square r iff r is not a blocker and the step stays
@@ -302,6 +302,57 @@ def ray_walker(ctx, rule, name, try_name, sq_param, bl_param, deltas_ok):
     ctx.touch(name)
     tries = {s_ for o in outs for c in o.conds for s_ in subterms(c[0]) if s_[0] == 'call' and s_[1] == try_name}
     tries |= {s_ for o in outs for t_ in (o.locals or {}).values() for s_ in subterms(t_) if s_[0] == 'call' and s_[1] == try_name}
+    if not tries and single is None:
+        # decomposed form: the per-direction walk lives in a helper H(square, blockers, d_rank, d_file) whose result is OR-ed into the
+        # accumulator, over all directions of the list (loop or fold)
+        crate_prefix = name.split('::')[0] + '::'
+        helper_calls = {}
+        for o in outs:
+            for e in o.events:
+                if e[0] == 'call' and e[1].startswith(crate_prefix) and e[1] in facts.fns and any(strip_cast(a) == ('p', sq_param) for a in e[2]) \
+                        and any(strip_cast(a) == ('p', bl_param) for a in e[2]):
+                    helper_calls.setdefault(e[1], e)
+        if len(helper_calls) == 1:
+            hname, he = next(iter(helper_calls.items()))
+            ha = [strip_cast(a) for a in he[2]]
+            sqi, bli = ha.index(('p', sq_param)) + 1, ha.index(('p', bl_param)) + 1
+            dirs = [k + 1 for k, a in enumerate(he[2]) if k + 1 not in (sqi, bli)]
+            def el_of2(t_):
+                t_ = strip_cast(t_)
+                while t_[0] in ('ref', 'der'):
+                    t_ = t_[1]
+                return (t_[1], t_[2]) if t_[0] == 'fld' else (None, None)
+            els = [el_of2(he[2][k - 1]) for k in dirs]
+            ctx.ob(rule, name, 'step direction = (d_rank, d_file) of one element of the direction list',
+                   len(dirs) == 2 and els[0][0] is not None and els[0][0] == els[1][0] and (els[0][1], els[1][1]) == ('0', '1'),
+                   found=[show(he[2][k - 1]) for k in dirs], expected='helper(square, blockers, d_rank, d_file)')
+            # accumulation: every iteration ORs the helper's result into the accumulator, which starts EMPTY and is the result
+            hcall = ('call', he[1], he[2], he[3])
+            backs = [o for o in outs if o.kind == 'backedge']
+            acc_ok = bool(backs)
+            for o in backs:
+                head = [e for e in o.events if e[0] == 'loop_head'][-1]
+                hit = False
+                for l, t_ in (o.locals or {}).items():
+                    core = t_
+                    while core[0] == 'agg' and core[1] == 'adt' and len(core[4]) == 1:
+                        core = core[4][0][1]
+                    if core[0] == 'upd':
+                        core = core[4]
+                    if core[0] == 'bin' and core[1] == 'BitOr' and any(x == hcall for x in subterms(core)) and any(x == ('lv', head[2], l) for x in subterms(core)):
+                        init = head[3].get(l)
+                        try:
+                            hit = init is not None and ev(init, {}) == 0
+                        except Unevaluable:
+                            hit = False
+                acc_ok = acc_ok and hit
+            rets = [o for o in outs if o.kind == 'return']
+            res_ok = len(rets) == 1 and rets[0].value is not None and rets[0].value[0] == 'lv'
+            ctx.ob(rule, name, 'result = the accumulated set, starting from EMPTY', acc_ok and res_ok, found=show(rets[0].value) if rets else None)
+            srcs = [x for o in outs for x in iteration_sources(o)]
+            ctx.ob(rule, name, 'directions iterated = the direction list handed in', bool(srcs) and all(deltas_ok(x[1]) and not x[2] for x in srcs),
+                   found=[show(x[1])[:120] for x in srcs][:2])
+            return ray_walker(ctx, rule, hname, try_name, sqi, bli, deltas_ok, single=(dirs[0], dirs[1]))
     if len(tries) != 1:
         ctx.ob(rule, name, 'one step call per ray iteration', False, found=[show(t_) for t_ in tries])
         return
@@ -321,23 +372,28 @@ def ray_walker(ctx, rule, name, try_name, sq_param, bl_param, deltas_ok):
         return (t_[1], t_[2]) if t_[0] == 'fld' else (None, None)
     e1, f1 = el_of(T[2][1])
     e2, f2 = el_of(T[2][2])
-    ctx.ob(rule, name, 'step direction = (d_rank, d_file) of one element of the direction list', e1 is not None and e1 == e2 and (f1, f2) == ('0', '1'),
-           found=[show(T[2][1]), show(T[2][2])], expected='try_offset(ray, d_rank, d_file)')
+    if single is None:
+        ctx.ob(rule, name, 'step direction = (d_rank, d_file) of one element of the direction list', e1 is not None and e1 == e2 and (f1, f2) == ('0', '1'),
+               found=[show(T[2][1]), show(T[2][2])], expected='try_offset(ray, d_rank, d_file)')
+    else:
+        ctx.ob(rule, name, 'the helper steps in the direction it was given', (strip_cast(T[2][1]), strip_cast(T[2][2])) == (('p', single[0]), ('p', single[1])),
+               found=[show(T[2][1]), show(T[2][2])], expected='try_offset(ray, d_rank, d_file)')
     heads = {}
     for o in outs:
         for e in o.events:
             if e[0] == 'loop_head':
                 heads[e[2]] = e[3]
     outer = [h for h in heads if h != Hin]
-    if len(outer) != 1:
-        ctx.ob(rule, name, 'two nested loops (directions, ray)', False, found=sorted(heads))
+    if len(outer) != (0 if single is not None else 1):
+        ctx.ob(rule, name, 'two nested loops (directions, ray)' if single is None else 'one loop (ray)', False, found=[str(h) for h in heads])
         return
-    Hout = outer[0]
-    src = [v for v in heads[Hout].values() if isinstance(v, tuple) and v[0] == 'call' and v[1].endswith('into_iter')]
-    ctx.ob(rule, name, 'directions iterated = the direction list handed in', len(src) == 1 and deltas_ok(src[0]), found=[show(v) for v in src])
+    Hout = outer[0] if outer else Hin
+    if single is None:
+        src = [v for v in heads[Hout].values() if isinstance(v, tuple) and v[0] == 'call' and v[1].endswith('into_iter')]
+        ctx.ob(rule, name, 'directions iterated = the direction list handed in', len(src) == 1 and deltas_ok(src[0]), found=[show(v) for v in src])
     # moves: the loop-carried local returned at the end
     rets = [o for o in outs if o.kind == 'return']
-    mv = rets[0].value if len(rets) == 1 else None
+    mv = rets[0].value if rets and all(o.value == rets[0].value for o in rets) else None
     okm = mv is not None and mv[0] == 'lv' and mv[1] == Hout
     lm = mv[2] if okm else None
     init_m = heads[Hout].get(lm) if okm else None
@@ -349,7 +405,7 @@ def ray_walker(ctx, rule, name, try_name, sq_param, bl_param, deltas_ok):
     if not okm:
         return
     pre = heads[Hin]
-    start_ok = pre.get(lray) == ('p', sq_param) and pre.get(lm) == ('lv', Hout, lm)
+    start_ok = pre.get(lray) == ('p', sq_param) and (pre.get(lm) == ('lv', Hout, lm) if single is None else True)
     ctx.ob(rule, name, 'each direction starts on the piece square and keeps the squares found so far', start_ok,
            found={'ray': show(pre.get(lray)) if lray in pre else None, 'moves': show(pre.get(lm)) if lm in pre else None})
     through = [o for o in outs if any(e[0] == 'loop_head' and e[2] == Hin for e in o.events) and o.kind in ('backedge', 'return')]
